@@ -267,7 +267,7 @@ theorem step_ctl (c : Conn) (h : Inv c) (ev : Event) :
         · intro hq f hf
           rcases rr.outQ f hf with x | x
           · exact hq f x
-          · exact x
+          · exact OutFrame.isCtl_notHeaders x
         · intro i s
           rcases rr.closed s with x | x
           · exact rr.goAway (i x)
@@ -350,7 +350,7 @@ theorem step_frames_spec (c : Conn) (h : Inv c) (hq : NoHdr c.outQ) (ev : Event)
         intro f hf
         rcases rr.outQ f hf with x | x
         · exact hq f x
-        · exact x
+        · exact OutFrame.isCtl_notHeaders x
       split
       · exact ⟨rfl, fun fs hf => by cases hf⟩
       · split
